@@ -75,6 +75,11 @@ CHECKS = {
         text="Design level: GenPipe.tla (to-do queue, helper counter, de-duplication by structure) checked by TLC for OneMethodPerRule, HelperNamesMonotone, DedupIsByStructure, AllRulesEmitted over small abstract grammars. Implementation level: both documented generation steps are run from the working tree under several hash seeds, twice each, and twice within one interpreter; every run is a trace of (method name, normalised-body digest generated, digest shipped, helper number) in emission order plus keyword tables, validated by TLC (one method per rule, helper names monotone, every method equals the shipped one, no extra shipped methods, keyword tables equal, all runs agree with the first).",
         note="Finite quantifier (two pairs): exhaustive for it. Normalisation: ast.unparse round trip, return/argument annotations and docstrings dropped, imports ignored.",
         ref="5/C16"),
+    "C17": dict(
+        technique="TLC evaluates the denotational PEG semantics (Peg.tla, incl. seed-growing left recursion) for every grammar x token string; the real generators' parsers are run on the same inputs and validated by TLC against PegTrace.tla",
+        text="The oracle is the specification: Peg.tla defines Sem for ordered choice, sequences, optional, star/plus, gathers, groups, positive/negative lookahead, cut, forced tokens, memo flags and direct/indirect left recursion, and TLC evaluates it on 36 hand-picked grammars (one per feature pair) + seeded random well-formed grammars (1-3 rules) x every token string up to length 4 (quick) / 5 (thorough) over a 5-token alphabet (NAME, NUMBER, two operators, a keyword). Each grammar is printed in .gram notation, read by the real metagrammar parser, generated by XonshParserGenerator (peg_parser runtime) and by PythonParserGenerator (pegen runtime), and executed through the real tokenizers; result, end position and action value must equal Sem. A history variant generates 24 grammars in one interpreter.",
+        note="Family bounds: wrappers apply to a token, rule or group (no wrapper-of-wrapper), forced only of punctuation tokens (the notation's own limits). Leaders computed independently (harness/pegfam.py). One known finding (single-item group / rule action dropped).",
+        ref="5/C17"),
     "C14": dict(
         technique="TLC enumeration of statement sequences from StmtSeq.tla -> composition law checked on the real parser; tree pairs (whole vs shifted parts) trace-validated by TLC (AstEq.tla)",
         text="StmtSeq.tla lists 55 complete statement forms (Python simple/compound, multi-line tokens, comment/blank lines, every xonsh statement form incl. empty macros and path-literal concatenations); TLC enumerates every sequence of up to 2 (all kinds) / 3 (xonsh-heavy subset) kinds in quick, 3 / 4 in thorough; the body of the concatenation must equal the bodies of the parts with shifted line numbers, positions included.",
